@@ -327,4 +327,57 @@ example :
   rw [addPayload_translated z cfg rfl]
   decide +kernel
 
+/-! ### header parsing: `ReceivingMessage.__init__` and `ReceivingMessage.validate` -/
+
+theorem int_bne_502 (v : Nat) : (((v : Int) != 502)) = (v != 502) := by
+  rw [Bool.eq_iff_iff]; simp only [bne_iff_ne, ne_eq]; omega
+
+theorem int_bne_19909 (v : Nat) : (((v : Int) != 19909)) = (v != 19909) := by
+  rw [Bool.eq_iff_iff]; simp only [bne_iff_ne, ne_eq]; omega
+
+/-- **`ReceivingMessage.__init__(header)`, as written now, is the model's `parseHeader`** on every 40-byte header and
+    every MAX_MESSAGE_SIZE (the struct format is the extracted one, field by field) -/
+theorem init_translated (cfg : PyIR.Cfg) (wcfg : Wire.Cfg) (hm : cfg.maxSize = wcfg.maxSize) (header : Bytes)
+    (h40 : header.length = 40) :
+    toHeader (runInit cfg Gen.C06.initSrc header) = some (Wire.parseHeader wcfg header) := by
+  unfold runInit
+  have hd : header.drop 40 = [] := List.drop_eq_nil_of_le (by omega)
+  by_cases ht : header.take 4 = [80, 89, 82, 79] <;>
+  by_cases hv : fromBE (List.take 2 (List.drop 4 header)) = 502 <;>
+  by_cases hg : fromBE (List.take 2 (List.drop 38 header)) = 19909 <;>
+  by_cases hs : (wcfg.maxSize : Int) < (fromBE (List.take 4 (List.drop 12 header)) : Int) + (fromBE (List.take 4 (List.drop 16 header)) : Int) <;>
+  (have htB : (List.take 4 header != [80, 89, 82, 79]) = !decide (List.take 4 header = [80, 89, 82, 79]) := by
+    by_cases h : List.take 4 header = [80, 89, 82, 79] <;> simp [h]) <;>
+  (have hvB : (fromBE (List.take 2 (List.drop 4 header)) != 502) = !decide (fromBE (List.take 2 (List.drop 4 header)) = 502) := by
+    by_cases h : fromBE (List.take 2 (List.drop 4 header)) = 502 <;> simp [h]) <;>
+  (have hgB : (fromBE (List.take 2 (List.drop 38 header)) != 19909) = !decide (fromBE (List.take 2 (List.drop 38 header)) = 19909) := by
+    by_cases h : fromBE (List.take 2 (List.drop 38 header)) = 19909 <;> simp [h]) <;>
+  simp [htB, hvB, hgB, Gen.C06.initSrc, exec, truth, eval, truthy, List.lookup_cons, unpackFields, fldSize, bindAll, h40, List.drop_drop,
+    List.length_drop, hd, int_bne_502, int_bne_19909, ht, hv, hg, hs, hm, toHeader, Wire.parseHeader, tagPYRO, protocolVersion,
+    magicNumber]
+  all_goals omega
+
+/-- what `validate` decides on the 6 bytes `recv_stub` reads first (the model's test in `recvStub`) -/
+def prefixBad (h6 : Bytes) : Bool := (h6.take 4 != tagPYRO) || (h6.drop 4 != toBE 2 protocolVersion)
+
+/-- **`ReceivingMessage.validate`, as written now, on the 6-byte prefix**: ProtocolError exactly when the tag is not
+    `PYRO` or the version bytes differ; otherwise it returns -/
+theorem validate_translated (cfg : PyIR.Cfg) (h6 : Bytes) (hl : h6.length = 6) :
+    (prefixBad h6 = true → ∃ env w, runValidate cfg Gen.C06.validateSrc h6 = .raise (.exc .protocolError false none) env w) ∧
+    (prefixBad h6 = false → ∃ env w, runValidate cfg Gen.C06.validateSrc h6 = .normal env w) := by
+  have hv : toBE 2 protocolVersion = [1, 246] := by decide
+  have e64 : (6 : Int).toNat - (4 : Int).toNat = 2 := by decide
+  have hd : List.take 2 (List.drop 4 h6) = List.drop 4 h6 := List.take_of_length_le (by simp [hl])
+  have htB : (List.take 4 h6 != [80, 89, 82, 79]) = !decide (List.take 4 h6 = [80, 89, 82, 79]) := by
+    by_cases h : List.take 4 h6 = [80, 89, 82, 79] <;> simp [h]
+  have hpB : (List.drop 4 h6 != [1, 246]) = !decide (List.drop 4 h6 = [1, 246]) := by
+    by_cases h : List.drop 4 h6 = [1, 246] <;> simp [h]
+  have hsw : (List.take 4 h6 == [80, 89, 82, 79]) = decide (List.take 4 h6 = [80, 89, 82, 79]) := by
+    by_cases h : List.take 4 h6 = [80, 89, 82, 79] <;> simp [h]
+  unfold runValidate prefixBad
+  rw [hv]
+  simp only [tagPYRO]
+  by_cases ht : List.take 4 h6 = [80, 89, 82, 79] <;> by_cases hp : List.drop 4 h6 = [1, 246] <;>
+    simp [Gen.C06.validateSrc, exec, truth, eval, truthy, List.lookup_cons, hl, ht, hp, hd, e64, htB, hpB, hsw]
+
 end Pyro.C06Ast
